@@ -15,6 +15,7 @@ pub fn exec_case(case: &Value) -> Value {
     match op {
         "admits" => props::c05::exec(case),
         "scenario" => scenario::exec(case),
+        "scenario_multi" => props::c11::exec(case),
         "xpath" | "xpath_pair" => props::c18::exec(case),
         "num_cmp" => props::c04::exec_num_cmp(case),
         "parse_cond" | "parse_match" => props::parse::exec(case),
@@ -42,6 +43,7 @@ pub fn gen_cases(prop: &str, tier: &str, seed: u64, out: &mut dyn FnMut(Value)) 
         "C19" => props::c19::gen(tier, seed, out),
         "C20" => props::c20::gen(tier, seed, out),
         "C08" => props::c08::gen(tier, seed, out),
+        "C11" => props::c11::gen(tier, seed, out),
         "C06" => props::engine_props::gen_c06(tier, seed, out),
         "C07" => props::engine_props::gen_c07(tier, seed, out),
         "C09" => props::engine_props::gen_c09(tier, seed, out),
